@@ -359,6 +359,100 @@ def render_scalar() -> str:
     return "\n".join(lines)
 
 
+# ---------------------------------------------------------------------------------------------
+# the union loop (koda_validate/_internal.py) -> Koda.UStmt (lean/KodaModel/PyUnion.lean)
+
+OUT_UNION = os.path.join(os.path.dirname(OUT), "UnionSrc.lean")
+UVARS = {"errs": "errs", "validator": "validator", "result_tup": "resultTup", "result": "result"}
+UPARAMS = {"val": "val", "source_validator": "sourceValidator", "validators": "validators"}
+UMETHS = {"_validate_to_tuple": "validateToTuple", "_validate_to_tuple_async": "validateToTupleAsync",
+          "validate_async": "validateAsync"}
+UATTRS = {"is_valid": "isValid", "val": "valA"}
+
+
+class UTr:
+    def exp(self, e: ast.expr) -> str:
+        if isinstance(e, ast.Name):
+            if e.id in UVARS:
+                return f"(.var .{UVARS[e.id]})"
+            if e.id in UPARAMS:
+                return f"(.param .{UPARAMS[e.id]})"
+        if isinstance(e, ast.List) and not e.elts:
+            return ".emptyList"
+        if isinstance(e, ast.Constant) and isinstance(e.value, bool):
+            return f"(.bool {'true' if e.value else 'false'})"
+        if isinstance(e, ast.Await):
+            return f"(.await {self.exp(e.value)})"
+        if isinstance(e, ast.Tuple) and len(e.elts) == 2:
+            return f"(.pair {self.exp(e.elts[0])} {self.exp(e.elts[1])})"
+        if (isinstance(e, ast.Subscript) and isinstance(e.slice, ast.Constant) and isinstance(e.slice.value, int)
+                and not isinstance(e.slice.value, bool) and e.slice.value >= 0):
+            return f"(.subscript {self.exp(e.value)} {e.slice.value})"
+        if isinstance(e, ast.Attribute):
+            a = f".{UATTRS[e.attr]}" if e.attr in UATTRS else f"(.other {lstr(e.attr)})"
+            return f"(.attr {self.exp(e.value)} {a})"
+        if isinstance(e, ast.Call) and not e.keywords:
+            f, args = e.func, e.args
+            if isinstance(f, ast.Name) and f.id == "isinstance" and len(args) == 2 and ast.unparse(args[1]) == "_ToTupleValidator":
+                return f"(.isToTuple {self.exp(args[0])})"
+            if (isinstance(f, ast.Name) and f.id == "Invalid" and len(args) == 3 and isinstance(args[0], ast.Call)
+                    and ast.unparse(args[0].func) == "UnionErrs" and len(args[0].args) == 1 and not args[0].keywords):
+                return f"(.mkUnionInvalid {self.exp(args[0].args[0])} {self.exp(args[1])} {self.exp(args[2])})"
+            if isinstance(f, ast.Attribute) and len(args) == 1:
+                m = f".{UMETHS[f.attr]}" if f.attr in UMETHS else f"(.other {lstr(f.attr)})"
+                return f"(.meth {self.exp(f.value)} {m} {self.exp(args[0])})"
+            if isinstance(f, ast.Name) and f.id in UVARS and len(args) == 1:
+                return f"(.meth {self.exp(f)} .call {self.exp(args[0])})"
+        return f"(.unsupported {lstr(ast.dump(e)[:160])})"
+
+    def stmt(self, s: ast.stmt) -> str:
+        if isinstance(s, ast.Assign) and len(s.targets) == 1 and isinstance(s.targets[0], ast.Name) and s.targets[0].id in UVARS:
+            return f"(.assign .{UVARS[s.targets[0].id]} {self.exp(s.value)})"
+        if isinstance(s, ast.If):
+            return f"(.ite {self.exp(s.test)} {self.block(s.body)} {self.block(s.orelse)})"
+        if isinstance(s, ast.For) and isinstance(s.target, ast.Name) and s.target.id in UVARS and not s.orelse:
+            return f"(.forIn .{UVARS[s.target.id]} {self.exp(s.iter)} {self.block(s.body)})"
+        if isinstance(s, ast.Return) and s.value is not None:
+            return f"(.ret {self.exp(s.value)})"
+        if (isinstance(s, ast.Expr) and isinstance(s.value, ast.Call) and isinstance(s.value.func, ast.Attribute)
+                and s.value.func.attr == "append" and isinstance(s.value.func.value, ast.Name)
+                and s.value.func.value.id in UVARS and len(s.value.args) == 1 and not s.value.keywords):
+            return f"(.append .{UVARS[s.value.func.value.id]} {self.exp(s.value.args[0])})"
+        return f"(.unsupported {lstr(ast.dump(s)[:160])})"
+
+    def block(self, body: List[ast.stmt]) -> str:
+        body = [s for s in body if not (isinstance(s, ast.Expr) and isinstance(s.value, ast.Constant))]
+        return "[" + ", ".join(self.stmt(s) for s in body) + "]"
+
+
+def render_union() -> str:
+    tree = ast.parse(open(os.path.join(PKG, "_internal.py")).read())
+    bodies = {"unionSync": '[.unsupported "not found"]', "unionAsync": '[.unsupported "not found"]'}
+    for node in tree.body:
+        if isinstance(node, (ast.FunctionDef, ast.AsyncFunctionDef)) and node.name in ("_union_validator", "_union_validator_async"):
+            ok = [a.arg for a in node.args.args] == ["source_validator", "validators", "val"]
+            key = "unionSync" if node.name == "_union_validator" else "unionAsync"
+            if isinstance(node, ast.AsyncFunctionDef) != (key == "unionAsync"):
+                ok = False
+            bodies[key] = UTr().block(node.body) if ok else '[.unsupported "signature"]'
+    # how UnionValidator / OptionalValidator reach the loop (pinned text)
+    uses = []
+    for fn in ("union.py", "none.py"):
+        t = ast.parse(open(os.path.join(PKG, fn)).read())
+        for c in t.body:
+            if isinstance(c, ast.ClassDef) and c.name in ("UnionValidator", "OptionalValidator"):
+                for item in c.body:
+                    if isinstance(item, (ast.FunctionDef, ast.AsyncFunctionDef)) and item.name in ("_validate_to_tuple", "_validate_to_tuple_async"):
+                        uses.append(f"{c.name}.{item.name}: " + " ; ".join(ast.unparse(b) for b in item.body))
+    lines = ["/- GENERATED by harness/pysrc.py from the current source of /repo/koda_validate/_internal.py — do not edit -/",
+             "import KodaModel.PyUnion", "", "namespace Koda.Src", ""]
+    for k, v in bodies.items():
+        lines += [f"def {k} : List UStmt :=", f"  {v}", ""]
+    lines += ["/-- how UnionValidator / OptionalValidator call the loop -/",
+              "def unionUses : List String := [" + ", ".join(lstr(u) for u in sorted(uses)) + "]", "", "end Koda.Src", ""]
+    return "\n".join(lines)
+
+
 def render() -> str:
     found = collect()
     lines = ["/- GENERATED by harness/pysrc.py from the current source of /repo/koda_validate — do not edit -/",
@@ -377,7 +471,7 @@ def render() -> str:
 
 def regenerate() -> bool:
     changed = False
-    for path, new in ((OUT, render()), (OUT_COERCE, render_coerce()), (OUT_SCALAR, render_scalar())):
+    for path, new in ((OUT, render()), (OUT_COERCE, render_coerce()), (OUT_SCALAR, render_scalar()), (OUT_UNION, render_union())):
         old = open(path).read() if os.path.exists(path) else None
         if new != old:
             with open(path, "w") as f:
